@@ -174,7 +174,11 @@ func ParseContractFile(path, pkgPath string) ([]*Contract, error) {
 			default:
 				if recvType != "" {
 					c.Key = "(" + star + qualify(pkgPath, recvType) + ")." + name
-					c.ParamNames = append(c.ParamNames, recvName)
+					// a closure inside a method ("m$1") has no receiver parameter: the
+					// receiver is a captured variable like any other
+					if !strings.Contains(name, "$") {
+						c.ParamNames = append(c.ParamNames, recvName)
+					}
 				} else if strings.HasPrefix(name, "(") || strings.Contains(name, "/") || pkgPath == "" {
 					c.Key = name
 				} else {
